@@ -37,6 +37,15 @@ Theorem C13_honest : forall ls s, lrun init ls = Some s ->
 Proof. exact honest_l. Qed.
 Print Assumptions C13_honest.
 
+(* no success by default: the model's RecvMsg / SendMsg on a finished stream report [s_rerr]; the model text has a
+   normal-looking default for "finished without an error" (Model/Client.v recv_final: io.EOF; r_send: nil). That
+   case is unreachable: a finished stream always carries its terminal error, and its loop is dead *)
+Theorem C13_done_has_error : forall ls s, lrun init ls = Some s ->
+  forall c k, nth_error (calls s) c = Some k -> s_done k = true ->
+    loop_alive k = false /\ is_some (s_rerr k) = true /\ k_pc k = POpen.
+Proof. intros ls s H c k Hn Hd. exact (ki_done_dead _ (cinv_call _ _ _ (proj1 (inv_reach _ _ H)) Hn) Hd). Qed.
+Print Assumptions C13_done_has_error.
+
 (* ---------- the hypotheses are satisfiable ---------- *)
 Definition weird1 (id : Z) : env := mkEnv id (Some MdBad) (Some (mkSt 0 0)) (Some 5) (Some MdBad) false.   (* undecodable metadata, explicit OK, body *)
 Definition weird2 (id : Z) : env := mkEnv id None None None None true.                                      (* bare reset, no header *)
